@@ -221,6 +221,76 @@ Theorem C15_first_sync_repeated_partial : forall hdr B loc w,
 Proof. exact first_sync_repeated. Qed.
 Print Assumptions C15_first_sync_repeated_partial.
 
+(** Start-up of a wallet opened with a recovery window: syncWithChain also
+    runs Wallet.recovery, which scans the backend's blocks above the synced-to
+    block and moves synced-to along.  [startup_rec_with o first rec]: [o] =
+    recovery stands before the rollback loop (the order in the source is
+    regenerated into Generated.SyncFacts.recovery_before_rollback).
+    Without a window nothing changes. *)
+Theorem C15_startup_without_recovery_window : forall hdr o first B loc txs w,
+  startup_rec_with o first false B hdr loc txs w = startup first B hdr loc w.
+Proof. exact startup_rec_no_window. Qed.
+Print Assumptions C15_startup_without_recovery_window.
+
+(** Rollback loop first, recovery after it: under the premises of
+    C15_startup_rollback the attempt succeeds and the wallet is consistent
+    with the backend's chain. *)
+Theorem C15_startup_recovery_after_rollback : forall hdr p a b lo w loc txs,
+  consistent hdr (p ++ a) lo w -> p <> [] -> diverge a b -> (length a <= length b)%nat ->
+  headers_known hdr (p ++ b) -> (a = [] \/ disc_ok lo (tip_height p + 1) = true) ->
+  Forall (fun x : rtx => on_chain (p ++ b) (m_height x.2) (m_hash x.2)) txs ->
+  exists w', startup_rec_with false false true (p ++ b) hdr loc txs w = (w', false) /\
+    consistent hdr (p ++ b) (lo_ext lo (tip_height p) (length b)) w' /\
+    chain_synced w' = chain_synced w.
+Proof. exact startup_rollback_first. Qed.
+Print Assumptions C15_startup_recovery_after_rollback.
+
+(** PARTIAL - finding S16 (the order in the source as of this round).
+    Recovery BEFORE the rollback loop, the best chain reorganised from above
+    [p] and grown beyond the wallet's height while the wallet was stopped:
+    the attempt succeeds without an error, synced-to is the backend's tip -
+    and nothing is rolled back: the wallet is consistent with
+    [p ++ a ++ drop (length a) b], its OLD branch up to its old tip with the
+    backend's blocks on top, a chain that never existed.  Missing with
+    respect to the property: for the heights of [a] the remembered hashes are
+    not the best chain's, every record confirmed in a block of [a] stays
+    confirmed, and the wallet transactions of the first [length a] blocks of
+    [b] are never seen.  (With [length b <= length a] recovery's loop is empty
+    or the backend is lower: C15_startup_rollback /
+    C15_startup_backend_lower_partial apply.) *)
+Theorem C15_startup_recovery_before_rollback_partial : forall hdr p a b lo w loc txs,
+  consistent hdr (p ++ a) lo w -> p <> [] -> (length a < length b)%nat ->
+  headers_known hdr (p ++ b) ->
+  Forall (fun x : rtx => on_chain (p ++ b) (m_height x.2) (m_hash x.2)) txs ->
+  exists w', startup_rec_with true false true (p ++ b) hdr loc txs w = (w', false) /\
+    consistent hdr (p ++ a ++ drop (length a) b) (lo_ext lo (tip_height (p ++ a)) (length b - length a)) w' /\
+    m_height (synced w') = tip_height (p ++ b) /\
+    chain_synced w' = chain_synced w /\
+    (forall r, r ∈ mined w -> r ∈ mined w').
+Proof. exact startup_recovery_first. Qed.
+Print Assumptions C15_startup_recovery_before_rollback_partial.
+
+(** What the code as built gives ([startup_rec] = the order found in the
+    source): whichever of the two applies. *)
+Theorem C15_startup_with_recovery_window_as_built : forall hdr p a b lo w loc txs,
+  consistent hdr (p ++ a) lo w -> p <> [] -> diverge a b -> (length a < length b)%nat ->
+  headers_known hdr (p ++ b) -> (a = [] \/ disc_ok lo (tip_height p + 1) = true) ->
+  Forall (fun x : rtx => on_chain (p ++ b) (m_height x.2) (m_hash x.2)) txs ->
+  exists w', startup_rec false true (p ++ b) hdr loc txs w = (w', false) /\
+    (recovery_before_rollback = false -> consistent hdr (p ++ b) (lo_ext lo (tip_height p) (length b)) w') /\
+    (recovery_before_rollback = true ->
+       consistent hdr (p ++ a ++ drop (length a) b) (lo_ext lo (tip_height (p ++ a)) (length b - length a)) w' /\
+       (forall r, r ∈ mined w -> r ∈ mined w')).
+Proof.
+  intros hdr p a b lo w loc txs Hc Hp Hdiv Hlen Hk Hok Htxs. unfold startup_rec.
+  destruct recovery_before_rollback.
+  - destruct (startup_recovery_first hdr p a b lo w loc txs Hc Hp Hlen Hk Htxs) as (w' & H1 & H2 & _ & _ & H5).
+    exists w'. split; [done|]. split; [discriminate|]. done.
+  - destruct (startup_rollback_first hdr p a b lo w loc txs Hc Hp Hdiv ltac:(lia) Hk Hok Htxs) as (w' & H1 & H2 & _).
+    exists w'. split; [done|]. split; [done|discriminate].
+Qed.
+Print Assumptions C15_startup_with_recovery_window_as_built.
+
 (** RescanProgress / RescanFinished naming a height the wallet has already
     reached (the only ones the dispatch switch can meet outside a start-up
     without a race): catchUpHashes changes nothing. *)
@@ -416,6 +486,40 @@ Example C15_nonvacuous_partial :
   sync_rollback (map ex_blk [1; 2; 3; 4]%nat) ex_hdr w = (w, true) /\
   sync_rollback (map ex_blk [1; 2; 8; 9; 10; 11; 12]%nat) ex_hdr w = (w, true).
 Proof. cbv zeta. split; vm_compute; reflexivity. Qed.
+
+(** Finding S16 on the model (corpus/C15/s16_recovery_before_rollback.json):
+    the wallet is at height 5 on blocks 1..6 (tx 2 confirmed at height 4, tx 3
+    at height 5); offline, heights 3..5 were replaced and three more blocks
+    mined (tx 2 again at height 4, tx 4 at height 7).  Recovery first: the
+    attempt succeeds, synced-to is the backend's tip (8, #12), heights 3..5
+    still hold the old hashes, tx 2 and tx 3 stay confirmed in the old blocks.
+    Rollback loop first: the wallet goes back to height 2 and recovery finds
+    tx 2 and tx 4 on the new branch. *)
+Example C15_nonvacuous_recovery :
+  let old := map ex_blk [1; 2; 3; 4; 5; 6]%nat in
+  let B := map ex_blk [1; 2; 3; 7; 8; 9; 10; 11; 12]%nat in
+  let w := {| synced := meta_of 5 (ex_blk 6);
+              hashes := list_to_map [(0, 1%N); (1, 2%N); (2, 3%N); (3, 4%N); (4, 5%N); (5, 6%N)];
+              birthday_set := true; bday := meta_of 0 (ex_blk 1); chain_synced := false;
+              mined := [{| r_tx := 2%N; r_height := 4; r_hash := 5%N; r_cb := false |};
+                        {| r_tx := 3%N; r_height := 5; r_hash := 6%N; r_cb := false |}];
+              unmined := [] |} in
+  let txs : list rtx := [(2%N, false, meta_of 4 (ex_blk 8)); (4%N, false, meta_of 7 (ex_blk 11))] in
+  let loc := meta_of 0 (ex_blk 1) in
+  (exists w', startup_rec_with true false true B ex_hdr loc txs w = (w', false) /\
+     synced w' = meta_of 8 (ex_blk 12) /\
+     map (fun h => hashes w' !! h) [2; 3; 4; 5; 6] = [Some 3; Some 4; Some 5; Some 6; Some 10]%N /\
+     map (fun r => (r_tx r, r_height r, r_hash r)) (mined w') = [(2%N, 4, 5%N); (3%N, 5, 6%N); (4%N, 7, 11%N)]) /\
+  (exists w', startup_rec_with false false true B ex_hdr loc txs w = (w', false) /\
+     synced w' = meta_of 8 (ex_blk 12) /\
+     map (fun h => hashes w' !! h) [2; 3; 4; 5; 6] = [Some 3; Some 7; Some 8; Some 9; Some 10]%N /\
+     map (fun r => (r_tx r, r_height r, r_hash r)) (mined w') = [(2%N, 4, 8%N); (4%N, 7, 11%N)] /\
+     unmined w' = [3%N]).
+Proof.
+  cbv zeta. split.
+  - eexists. split; [vm_compute; reflexivity|]. vm_compute. repeat split.
+  - eexists. split; [vm_compute; reflexivity|]. vm_compute. repeat split.
+Qed.
 
 (** * Composition with the transaction-store development (Sync/SyncStore.v)
 
